@@ -256,7 +256,16 @@ class Oracle:
             used = bits(mid)
             from incomplete_cooperative.coalitions import Coalition
             coals = [Coalition(self.V[i]) for i in used]
-            kind, a = vec_answer(lambda: rm.get_average_strategy(coals))
+            # the parameter is an Iterable: a list, a tuple, or a one-shot iterator / generator (consumed once) all name the node
+            form = (mid + len(self.hist)) % 4
+            arg = coals if form == 0 else tuple(coals) if form == 1 else iter(coals) if form == 2 else (c_ for c_ in coals)
+            kind, a = vec_answer(lambda: rm.get_average_strategy(arg))
+            if kind == "num" and form >= 2:
+                kind2, a2 = vec_answer(lambda: rm.regret_matching_strategy(iter(list(coals))))
+                kind3, a3 = vec_answer(lambda: rm.regret_matching_strategy(mid))
+                if a2 is None or a3 is None or not np.array_equal(a2, a3):
+                    self.bad("regret_matching_strategy gives different answers for a node named by a one-shot iterator of its "
+                             "coalitions and by its id", "regret:strategy-iterator-form", node=mid, iteration=len(self.hist))
             out[mid] = a
             if a is None:
                 if kind == "err:nan":
@@ -514,6 +523,15 @@ def drive(res, script, case_id, name, n, limit, plus, hist, rnd, tmp: Path | Non
                     # iterations later, and loaded from it — the loaded one must be the state at the second save
                     snap2 = snapshot(rm)
                     T2 = T + len(more)
+                    # the "best / latest" pattern first: the current state goes into ANOTHER directory, and only then, with no
+                    # iteration in between, into the directory of the earlier checkpoint — which must then hold the current state
+                    d2 = tmp / f"{name}_latest"
+                    if (len(hist) + n) % 2 == 0:
+                        try:
+                            rm.save(d2)
+                            res.count("checkpoint_other_directory_first")
+                        except Exception as e:  # noqa: BLE001
+                            orc.bad(f"saving into a second directory raises {type(e).__name__}", "regret:save-load", saved_at=T2, first_saved_at=T)
                     try:
                         rm.save(d)
                         params2 = json.loads((d / "params.json").read_text())
@@ -527,6 +545,21 @@ def drive(res, script, case_id, name, n, limit, plus, hist, rnd, tmp: Path | Non
                             orc.bad("a minimiser saved a second time into the same directory and then loaded is not the state at "
                                     "the second save (stale checkpoint parts)", "regret:save-load", saved_at=T2, first_saved_at=T)
                         res.count("checkpoint_dir_reused")
+                    # … and the "best / latest" pattern: the same state saved into ANOTHER directory and then once more into the
+                    # first one, with no iteration in between — every directory must hold the state of its LAST save
+                    try:
+                        rm.save(d2)
+                        rm.save(d)
+                        rmD, rmE = GameRegretMinimizer.load(d), GameRegretMinimizer.load(d2)
+                        if not same_state(rmD, snap2) or not same_state(rmE, snap2):
+                            orc.bad("after save(A) … iterations … save(B), save(A): a directory does not hold the state of its last save",
+                                    "regret:save-load", saved_at=T2, first_saved_at=T)
+                        res.count("checkpoint_two_directories")
+                    except Exception as e:  # noqa: BLE001
+                        orc.bad(f"saving one state into two directories (or loading them) raises {type(e).__name__}", "regret:save-load",
+                                saved_at=T2, first_saved_at=T)
+                    finally:
+                        shutil.rmtree(d2, ignore_errors=True)
         finally:
             shutil.rmtree(d, ignore_errors=True)
     return orc, rm
